@@ -49,6 +49,9 @@ func checkC08(c *Ctx) {
 		c.Undecided("C08-R1", "package tcell", "-", "not loaded")
 		return
 	}
+	c.Rule("C08-R9", "Dirty: a zero marker rune means dirty whatever the cell holds; the shown and the current combining runes are compared with their lengths")
+	c.Expect("C08-R9", 2)
+	checkDirtyDecisions(c, p, "C08-R9")
 	ms := cbMethods(p)
 	for _, need := range []string{"SetContent", "GetContent", "Dirty", "SetDirty", "Invalidate", "Resize", "Fill", "LockCell", "UnlockCell"} {
 		if ms[need] == nil {
